@@ -552,6 +552,12 @@ def _ball_save_conservation(chk, repo):
             ok = ok and len(d) == 1 and src(d[0].value).replace(" ", "") == "max(min(device.available_balls,%s-%s),0)" % (p2, a)
     chk.ob("SAVE-5", "the hand-over requests exactly the scheduled number: from each lock what it has (at most what is still missing), the rest from the trough",
            ok, ab.where(), construct=ab.ident, text="hand-over arithmetic")
+    from sa.helpers import split_request
+    for rel, qn, tot in (("mpf/devices/multiball.py", "Multiball.start", "self.balls_added_live"),
+                         ("mpf/devices/multiball_lock.py", "MultiballLock._request_new_balls", "balls"), (BSV, "BallSave._add_balls", p2)):
+        g2 = repo.func(rel, qn)
+        chk.analysed(g2)
+        split_request(chk, "SAVE-5", g2, tot, "balls promised = balls requested")
     rm = bs.methods["device_removed_from_mode"]
     chk.analysed(rm)
     rcfg = rm.cfg()
@@ -619,6 +625,8 @@ def battery():
         M("incoming timeout reported only for the first", IB, "            for incoming_ball in timeouts:\n                await self.ball_device.lost_incoming_ball(source=incoming_ball.source)", "            for incoming_ball in timeouts:\n                await self.ball_device.lost_incoming_ball(source=incoming_ball.source)\n                break", "TIMEOUT-5"),
         M("recount request wiped before the sleep", BC, "            await Util.first([ball_changes, revalidate_future, self._eject_started.wait()])\n            self._revalidate.clear()", "            self._revalidate.clear()\n            await Util.first([ball_changes, revalidate_future, self._eject_started.wait()])", "WAKE-5"),
         M("recount request wiped after taking the lock", BC, "            self._revalidate.clear()\n\n            # get lock and update count\n            await self._is_counting.acquire()\n", "            # get lock and update count\n            await self._is_counting.acquire()\n            self._revalidate.clear()\n", "WAKE-5"),
+        M("multiball forgets what earlier locks released", "mpf/devices/multiball.py", "            balls_added += balls_to_release", "            balls_added = balls_to_release", "SAVE-5"),
+        M("multiball lock requests the full number again", "mpf/devices/multiball_lock.py", "        self.source_playfield.add_ball(balls=max(balls - balls_added, 0))", "        self.source_playfield.add_ball(balls=balls)", "SAVE-5"),
     ]
 
 
